@@ -286,4 +286,101 @@ def run(ctx):
     g = ctx.src.func("formulas.formula_grammar")
     glob = [n for n in ast.walk(g.node) if isinstance(n, ast.Name) and n.id in ("PUBLIC_TABLE", "default_table", "elements")]
     ctx.check(not glob, "R7", "formula_grammar resolves symbols only through its table parameter", f"{[ast.unparse(x) for x in glob]}", site)
+    from ptstat import symval
+    symval.OPTIONS["unit_groups"] = True      # only compositions are compared in R8, never nesting
+    try:
+        _mixtures(ctx)
+    finally:
+        symval.OPTIONS["unit_groups"] = False
     ctx.assume("the n/i suffix of the density tag is described in the guide's text, not in its EBNF block")
+
+
+# ---- R8 the mixture productions of the documented grammar --------------------------------------------------------------
+SI = {"n": sp.Rational(1, 10 ** 9), "u": sp.Rational(1, 10 ** 6), "m": sp.Rational(1, 1000), "c": sp.Rational(1, 100),
+      "k": sp.Integer(1000), "": sp.Integer(1)}
+
+
+def _mixtures(ctx):
+    """quantity :: count unit part ('//' count unit part)*   percentage :: count 'wt%|vol%' part ('//' count '%' part)* '//' part
+    Every documented unit is accepted in every position, with and without a blank before it, and the parts are present in
+    the stated proportion (masses for mass units and wt%, volumes = mass/density for volume and length units and vol%)."""
+    import re as _re
+    from ptstat import algebra
+    rst = ctx.src.data_file("doc/sphinx/guide/formula_grammar.rst")
+    units = {}
+    for kind in ("mass", "volume", "length"):
+        m = _re.search(rf"^\s*{kind}\s*::\s*(.+)$", rst, _re.M)
+        if not m:
+            raise AnalysisError(f"unit list '{kind}' not found in formula_grammar.rst")
+        units[kind] = _re.findall(r"'([^']+)'", m.group(1))
+    w, gram = build(ctx)
+    I = w.I
+    fm = I.global_name("formulas", "formula")
+    site = fsite(ctx, "formulas.formula_grammar")
+    E = w.element
+    mass = lambda sym: I.getattr(E(sym), "mass")
+    M1 = mass("Na") + mass("Cl")          # part 1: NaCl@2
+    M2 = 2 * mass("H") + mass("O")        # part 2: H2O@1
+    d1, d2 = sp.Integer(2), sp.Integer(1)
+
+    def grams(q, u):
+        if u in units["mass"]:
+            return q * SI[u[:-1]], None
+        return None, q * SI[u[:-1]] * 1000     # litres -> cm^3
+
+    def check(text, want_ratio, label, quantity="mass"):
+        """want_ratio = (amount of part 1)/(amount of part 2) in mass or volume"""
+        try:
+            f = I.call(fm, [text], {"table": w.table})
+        except SymRaise as exc:
+            ctx.fail("R8", label, f"{text!r} is a derivation of the documented grammar but is rejected ({exc.exc} {exc.msg})", site, witness=text)
+            return
+        at = I.getattr(f, "atoms")
+        if E("Na") not in at or E("O") not in at:
+            ctx.fail("R8", label, f"{text!r}: parts missing from the result: {sorted(ident(I, a)[0] for a in at)}", site, witness=text)
+            return
+        m1, m2 = at[E("Na")] * M1, at[E("O")] * M2
+        got = (m1 / m2) if quantity == "mass" else (m1 / d1) / (m2 / d2)
+        ok, how, wit = algebra.equal(got, want_ratio, seed=ctx.seed)
+        ctx.check(ok, "R8", label, f"{text!r}: {quantity} ratio of the parts is {_s(got)}, stated {_s(want_ratio)} ({how})", site,
+                  witness=text, sample=text)
+
+    n = 0
+    for u in units["mass"] + units["volume"]:
+        for blank in ("", " "):
+            for pos in (0, 1):
+                other = "g"
+                q = (sp.Integer(3), sp.Integer(2))
+                us = (u, other) if pos == 0 else (other, u)
+                text = f"3{blank}{us[0]} NaCl@2 // 2{blank}{us[1]} H2O@1"
+                amounts = []
+                for qi, ui, di in zip(q, us, (d1, d2)):
+                    g, cm3 = grams(qi, ui)
+                    amounts.append(g if g is not None else cm3 * di)
+                check(text, amounts[0] / amounts[1], f"quantity with unit '{u}' in position {pos + 1}{' after a blank' if blank else ''}")
+                n += 1
+    for u in units["length"]:
+        for blank in ("", " "):
+            for pos in (0, 1):
+                us = (u, "nm") if pos == 0 else ("nm", u)
+                text = f"3{blank}{us[0]} NaCl@2 // 2{blank}{us[1]} H2O@1"
+                check(text, (3 * SI[us[0][:-1]]) / (2 * SI[us[1][:-1]]),
+                      f"layer thickness with unit '{u}' in position {pos + 1}{' after a blank' if blank else ''}", quantity="volume")
+                n += 1
+    for tag, quantity in (("wt%", "mass"), ("vol%", "volume")):
+        for blank in ("", " "):
+            check(f"30{blank}{tag} NaCl@2 // H2O@1", sp.Rational(30, 70), f"percentage '{tag}'{' after a blank' if blank else ''}: two parts", quantity)
+            check(f"30{blank}{tag} NaCl@2 // 20% H2O@1 // Fe", sp.Rational(30, 20), f"percentage '{tag}'{' after a blank' if blank else ''}: three parts", quantity)
+            n += 2
+    # a parenthesised mixture is a part
+    for text in ("20vol% (10 wt% NaCl@2.16 // H2O@1) // D2O@1n", "5g (10 wt% NaCl@2.16 // H2O@1) // 5g D2O@1n", "(10 wt% NaCl@2.16 // H2O@1)@1.1"):
+        try:
+            f = I.call(fm, [text], {"table": w.table})
+            at = I.getattr(f, "atoms")
+            ctx.check(E("Na") in at and E("O") in at, "R8", f"a parenthesised mixture as a part: {text!r}",
+                      f"atoms {sorted(ident(I, a)[0] for a in at)}", site, witness=text)
+        except SymRaise as exc:
+            ctx.fail("R8", f"a parenthesised mixture as a part: {text!r}", f"rejected ({exc.exc} {exc.msg})", site, witness=text)
+        n += 1
+    ctx.floor("R8", 60)
+    ctx.unit("mixture_strings", n)
